@@ -185,6 +185,28 @@ def replay(rec, ctx):
     tot = sum(dens)
     if tot > 0:
         check_fractions("match_plasma_neutrality", [x / tot for x in dens])
+    # ---- the given species carry the fraction g of the electron charge (IonBalance.tla: GivenFracs); g > 1: nothing is left
+    mean_other = given / 1.0e18
+    for gv in rec.get("given", []):
+        g = gv["g"][0] / gv["g"][1]
+        bulk = gv["bulk"][0] / gv["bulk"][1] * ne
+        n_o = g * ne / mean_other
+        oth = IB.from_elementdensity(ad, oel, n_o, ne, te)
+        gtag = f"[given-charge-{gv['g'][0]}/{gv['g'][1]}-of-ne]"
+        res = {"scalar": lambda: [float(np.asarray(x).ravel()[0]) for x in (lambda m: [m[z] for z in range(Z + 1)])(IB.match_plasma_neutrality(ad, el, [oth], ne, te, **donor))],
+               "ndarray": lambda: [float(np.asarray(x)[1]) for x in (lambda m: [m[z] for z in range(Z + 1)])(
+                   IB.match_plasma_neutrality(ad, el, [{z: np.array([float(np.asarray(oth[z]).ravel()[0])] * 3) for z in oth}], np.array([ne, ne, ne]), np.array([te, te, te]), **arr))],
+               "interpolators1d": lambda: [float(x(0.5)) for x in (lambda m: [m[z] for z in range(Z + 1)])(
+                   IB.interpolators1d_match_plasma_neutrality(ad, el, fvar, [IB.interpolators1d_from_elementdensity(ad, oel, fvar, Constant1D(n_o), Constant1D(ne), Constant1D(te))],
+                                                              Constant1D(ne), Constant1D(te), **f1))]}
+        for form, f in res.items():
+            d = f()
+            if any(x < -1e-9 * ne for x in d):
+                bad(f"match_plasma_neutrality{gtag}[{form}]:negative-density", f"{d}")
+                continue
+            ch = sum(z * x for z, x in enumerate(d))
+            if g <= 1 and abs(ch - bulk) > 1e-6 * ne:       # (with g > 1 no closure is possible: only the sign is asserted)
+                bad(f"match_plasma_neutrality{gtag}[{form}]:charge-not-equal-remaining-electron-density", f"sum z n_z = {ch!r}, (1 - g) n_e = {bulk!r}")
     # ---- interpolator front-ends
     i1 = IB.interpolators1d_fractional(ad, el, fvar, Constant1D(ne), Constant1D(te), **f1)
     got = [float(i1[z](0.25)) for z in range(Z + 1)]
@@ -213,6 +235,7 @@ INVARIANT Balance
 INVARIANT MeanChargePositive
 INVARIANT NoDonorNoCx
 INVARIANT WideBalance
+INVARIANT BulkNonNegative
 INVARIANT EmitCase
 """
 
